@@ -39,6 +39,7 @@ def classes(tier):
         [unit("N*m", "decltype(au::Newtons{} * au::Meters{})", d(M=1, L=2, T=-2), model.mag_int(1000)), U["joules"]],
         [U["hertz"], unit("1/s", "decltype(au::pow<-1>(au::Seconds{}))", d(T=-1)), model.prefixed(P["Kilo"], U["becquerel"])],
         [model.prefixed(P["Kilo"], U["grams"]), U["pounds_mass"]],
+        [U["celsius"], U["kelvins"], U["fahrenheit"]],      # units with a non-trivial origin (point semantics differ)
     ]
     if tier == "thorough":
         seen = {model.dim_key(c[0].dim) for c in cls}
@@ -96,7 +97,7 @@ def check(run):
     # thorough: the 10 core classes get 4 reps on all six configurations; the extended classes (one per remaining
     # library dimension) get rep double on the two corner configurations; see the sizing note in DESIGN.md section 13
     reps_neg = ["double", "int32_t", "uint8_t"] if tier == "quick" else ["double", "int32_t", "uint8_t", "int64_t"]
-    ncore = 10
+    ncore = 11
     probes20, probes = [], []     # C++20-only probes kept apart
 
     core_names = set(u.name for c in cls[:ncore] for u in c)
@@ -128,7 +129,8 @@ def check(run):
             if model.ordering_conflict([ua, ub]):
                 continue
             for rep in ("double", "float"):
-                for name, stmt in BIN_OPS + FLOAT_OPS + POINT_OPS + (DATA_OPS if model.same_quantity(ua, ub) else []):
+                data_ops = [o for o in DATA_OPS if model.same_quantity(ua, ub) and (not o[0].startswith("pt.") or ua.origin == ub.origin)]
+                for name, stmt in BIN_OPS + FLOAT_OPS + POINT_OPS + data_ops:
                     add(probes, (name, "twin", ua.name, ub.name, rep), ua, ub, rep, stmt, "accept")
                 for name, stmt in CPP20_OPS + POINT20:
                     add(probes20, (name, "twin", ua.name, ub.name, rep), ua, ub, rep, stmt, "accept")
